@@ -153,7 +153,7 @@ def _from_value_int(cls, value):
     return cls._subclasses_by_sml["I8"](value)
 """,
     "get": """
-def get(self, length):
+def get(self, length=1):
     result = self._data[:length]
     self._data = self._data[length:]
     return result
